@@ -32,7 +32,8 @@ POOL = 12
 CHUNK = 4000
 PATHS = ["ctor", "dict", "json", "aoef"]
 RULE = ("every case of the TLA+ enumeration -- clip evaluations: 0..2 annotations x 0..2 predictions x match lists over "
-        "(none | p1 | p2 | foreign) x (none | a1 | a2 | foreign) x clip pairing (same object, equal copy, other clip, other "
+        "(none | p1 | p2 | foreign) x (none | a1 | a2 | foreign), also with annotations / predictions that wrap one and the same "
+        "sound event (a1 and a2, a foreign annotation and a1, all three) x clip pairing (same object, equal copy, other clip, other "
         "recording); single matches; annotation projects: task x annotation membership over 3 clips; clips: 5 x 5 start/end "
         "values x number encodings (numbers, numeric strings, mixed) x 2 units; scores: 10 values around 0 and 1 (+ absent) x "
         "6 bounded fields (+ Evaluation.score, observed only) x number/string -- each built through 4 paths; "
@@ -71,15 +72,21 @@ def _se(k):
     return data.SoundEvent(uuid=U(SE_ID + k), recording=REC, geometry=data.TimeInterval(coordinates=[1.0, 2.0]))
 
 
-def _ann(k):
-    return data.SoundEventAnnotation(uuid=U(ANN_ID + k), sound_event=_se(k), created_on=T0)
+def _wrapped(wrap, k):
+    """Which sound event the k-th annotation / prediction wraps: wrap[k - 1] when the case says so, its own otherwise.
+    Different annotations (predictions) may wrap the same sound event."""
+    return wrap[k - 1] if wrap and k <= len(wrap) else k
+
+
+def _ann(k, wrap=None):
+    return data.SoundEventAnnotation(uuid=U(ANN_ID + k), sound_event=_se(_wrapped(wrap, k)), created_on=T0)
 
 
 K = 6                      # universe numbers 1..K for annotations and for predictions (enumerated cases use 1..3)
 
 
-def _pred(k):
-    return data.SoundEventPrediction(uuid=U(PRED_ID + k), sound_event=_se(K + k), score=0.5)
+def _pred(k, wrap=None):
+    return data.SoundEventPrediction(uuid=U(PRED_ID + k), sound_event=_se(K + _wrapped(wrap, k)), score=0.5)
 
 
 def _attempt(fn):
@@ -141,16 +148,17 @@ def _ce_stored(ce):
 
 def _ce(case):
     na, np_, ms, pairing = case["na"], case["np"], case["ms"], case["pairing"]
+    ase, pse = case.get("ase"), case.get("pse")        # which sound event each annotation / prediction wraps
 
     def parts():
         ca_clip, cp_clip = _pairing_clips(pairing)
-        ca = data.ClipAnnotation(uuid=U(0x60), clip=ca_clip, sound_events=[_ann(k) for k in range(1, na + 1)], created_on=T0)
-        cp = data.ClipPrediction(uuid=U(0x61), clip=cp_clip, sound_events=[_pred(k) for k in range(1, np_ + 1)])
+        ca = data.ClipAnnotation(uuid=U(0x60), clip=ca_clip, sound_events=[_ann(k, ase) for k in range(1, na + 1)], created_on=T0)
+        cp = data.ClipPrediction(uuid=U(0x61), clip=cp_clip, sound_events=[_pred(k, pse) for k in range(1, np_ + 1)])
         return ca, cp
 
     def ctor():
         ca, cp = parts()
-        matches = [data.Match(uuid=U(MATCH_ID + i), source=_pred(s) if s else None, target=_ann(t) if t else None,
+        matches = [data.Match(uuid=U(MATCH_ID + i), source=_pred(s, pse) if s else None, target=_ann(t, ase) if t else None,
                               affinity=0.5) for i, (s, t) in enumerate(ms)]
         return data.ClipEvaluation(uuid=U(0x70), annotations=ca, predictions=cp, matches=matches)
 
@@ -161,13 +169,13 @@ def _ce(case):
         for i, (s, t) in enumerate(ms):
             m = {"uuid": str(U(MATCH_ID + i)) if mode == "json" else U(MATCH_ID + i), "affinity": 0.5}
             if mode == "json":                       # JSON path: absent sides are explicit nulls
-                m["source"] = dump(_pred(s)) if s else None
-                m["target"] = dump(_ann(t)) if t else None
+                m["source"] = dump(_pred(s, pse)) if s else None
+                m["target"] = dump(_ann(t, ase)) if t else None
             else:                                    # dict path: absent sides are simply missing
                 if s:
-                    m["source"] = dump(_pred(s))
+                    m["source"] = dump(_pred(s, pse))
                 if t:
-                    m["target"] = dump(_ann(t))
+                    m["target"] = dump(_ann(t, ase))
             md.append(m)
         return {"uuid": str(U(0x70)), "annotations": dump(ca), "predictions": dump(cp), "matches": md}
 
@@ -189,11 +197,11 @@ def _ce(case):
             "recordings": recs, "clips": clips,
             "sound_events": [{"uuid": str(U(SE_ID + k)), "recording": str(U(1)),
                               "geometry": {"type": "TimeInterval", "coordinates": [1.0, 2.0]}} for k in range(1, 2 * K + 1)],
-            "sound_event_annotations": [{"uuid": str(U(ANN_ID + k)), "sound_event": str(U(SE_ID + k)), "created_on": T0S}
+            "sound_event_annotations": [{"uuid": str(U(ANN_ID + k)), "sound_event": str(U(SE_ID + _wrapped(ase, k))), "created_on": T0S}
                                         for k in range(1, K + 1)],
             "clip_annotations": [{"uuid": str(U(0x60)), "clip": str(U(CLIP_ID["A"])), "created_on": T0S,
                                   "sound_events": [str(U(ANN_ID + k)) for k in range(1, na + 1)]}],
-            "sound_event_predictions": [{"uuid": str(U(PRED_ID + k)), "sound_event": str(U(SE_ID + K + k)), "score": 0.5}
+            "sound_event_predictions": [{"uuid": str(U(PRED_ID + k)), "sound_event": str(U(SE_ID + K + _wrapped(pse, k))), "score": 0.5}
                                         for k in range(1, K + 1)],
             "clip_predictions": [{"uuid": str(U(0x61)), "clip": pred_clip,
                                   "sound_events": [str(U(PRED_ID + k)) for k in range(1, np_ + 1)]}],
@@ -545,7 +553,11 @@ def random_cases(rng, tier):
                 i = rng.randrange(len(ms))
                 ms[i] = [ms[i][0], 0] if ms[i][0] else [0, ms[i][1]]           # one side dropped (no-op if one-sided)
         pairing = rng.choice(["same", "same", "same", "copy", "copy", "diff_times", "diff_rec"])
-        yield {"kind": "ce", "na": na, "np": np_, "ms": ms[:9], "pairing": pairing}
+        ase, pse = list(range(1, K + 1)), list(range(1, K + 1))
+        for wrap in (ase, pse):                                  # some annotations / predictions share a sound event
+            for _ in range(rng.choice([0, 0, 1, 2])):
+                wrap[rng.randrange(K)] = rng.randrange(1, K + 1)
+        yield {"kind": "ce", "na": na, "np": np_, "ms": ms[:9], "pairing": pairing, "ase": ase, "pse": pse}
 
 
 def finding_key(obs, clause):
